@@ -4,6 +4,7 @@ import (
 	"bytes"
 	"context"
 	"encoding/json"
+	"errors"
 	"fmt"
 	"io"
 	"log/slog"
@@ -355,4 +356,44 @@ func abstractIDs(msg string) ([]int, error) {
 		ids = append(ids, id)
 	}
 	return ids, nil
+}
+
+// ---------------------------------------------------------------- writer faults
+
+// What a scripted writer does with one Write call (the model's fault kinds).
+const (
+	faultNone  = 0
+	faultErr   = 1 // return (0, errInjected)
+	faultShort = 2 // return (n < len(p), errInjected)
+	faultPanic = 3 // panic(panicInjected); the harness recovers per Handle call
+)
+
+var errInjected = errors.New("c19: injected writer error")
+
+const panicInjected = "c19: injected writer panic"
+
+// wedgedWhat describes a Handle call that waits for the handler's mutex after
+// an earlier Write panicked and the panic was recovered by the caller.
+const wedgedWhat = "handler wedged after a writer panic: a later Handle call does not return (it waits for the mutex the panicking call left locked)"
+
+// callWithDeadline runs f in its own goroutine, as a server would run a
+// request, and waits for it.  ok = false: f did not return within d; state is
+// then the goroutine's scheduler state (e.g. "sync.Mutex.Lock").
+func callWithDeadline(d time.Duration, f func()) (ok bool, state string) {
+	done := make(chan struct{})
+	gidc := make(chan uint64, 1)
+	go func() {
+		gidc <- curGID()
+		defer close(done)
+		f()
+	}()
+	gid := <-gidc
+	t := time.NewTimer(d)
+	defer t.Stop()
+	select {
+	case <-done:
+		return true, ""
+	case <-t.C:
+		return false, goroutineState(gid)
+	}
 }
